@@ -62,6 +62,11 @@ REG(r8, "c06.n3agk3", 3, dom::SigmaAG(), 3, true, "dense members of TA(3,{a:0,g:
 REG(r9, "c06.n2s2k5", 2, dom::Sigma2(), 5, true, "dense members of TA(2,{a:0,b:0,g:2},<=5), all registration orders")
 REG(r10, "c06.n2ahk3", 2, dom::SigmaAH(), 3, true, "dense members of TA(2,{a:0,h:3},<=3), private alphabet (ternary symbol)")
 REG(r11, "c06.n2afhk3", 2, dom::SigmaAFH(), 3, true, "dense members of TA(2,{a:0,f:1,h:3},<=3), private alphabet, all registration orders")
+REG(r12, "c06.n3s2k4", 3, dom::Sigma2(), 4, true, "dense members of TA(3,{a:0,b:0,g:2},<=4), all registration orders")
+REG(r13, "c06.n3s3pk4", 3, dom::Sigma3p(), 4, true, "dense members of TA(3,{a:0,f:1,g:2},<=4), all registration orders")
+REG(r14, "c06.n4agk3", 4, dom::SigmaAG(), 3, true, "dense members of TA(4,{a:0,g:2},<=3), both registration orders")
+REG(r15, "c06.n3afhk3", 3, dom::SigmaAFH(), 3, true, "dense members of TA(3,{a:0,f:1,h:3},<=3), all registration orders (ternary symbol)")
+REG(s2, "c06.sparse.n3s2k3", 3, dom::Sigma2(), 3, false, "NON-dense members (a state below the largest unused) of TA(3,{a:0,b:0,g:2},<=3)")
 REG(s1, "c06.sparse.n2s2k3", 2, dom::Sigma2(), 3, false, "NON-dense members (state 0 unused) of TA(2,{a:0,b:0,g:2},<=3)")
 
 }  // namespace c06
